@@ -156,9 +156,10 @@ func (t Table) Apply(d Def) error {
 			}
 		}
 	case "weight":
+		// a weight command without a matching target has nothing to do (like del)
 		r := t[host][path]
 		if r == nil {
-			return fmt.Errorf("no match")
+			return nil
 		}
 		var m []*Target
 		for _, x := range r.Targets {
@@ -171,7 +172,7 @@ func (t Table) Apply(d Def) error {
 			m = append(m, x)
 		}
 		if len(m) == 0 {
-			return fmt.Errorf("no match")
+			return nil
 		}
 		for _, x := range m { // the share is split over all matching targets
 			x.Fixed = d.Weight / float64(len(m))
